@@ -822,6 +822,10 @@ def _archunkgenerator(array, dtype=None, chunklen=None):
                 yield np.asarray(chunk, dtype=dtype)
     elif hasattr(array, '__len__') and not hasattr(array, 'keys'):
         # may be numpy array or sequence
+        if isinstance(array, (list, tuple)):
+            # the type of a Python sequence depends on all of its elements,
+            # not on those of the first chunk
+            array = np.asarray(array, dtype=dtype)
         totallen = len(array)
         if totallen == 0:
             yield np.asarray(array, dtype=dtype)
